@@ -849,6 +849,8 @@ class ThreadedServerWorld(ServerWorld):
             rec['seq_end'] = self.k.ev('api.end', id=rec['id'], name=name,
                                        exc=rec['exc'])
             rec['t_end'] = self.k.now
+            if 'sid' in rec:
+                rec['after'] = self.peek(rec['sid'])
         rec['thread'] = self.k.spawn(run, name='A%d:%s' % (rec['id'], name))
 
     def session_ctx(self, rec_tag, sid, mutate):
@@ -1020,6 +1022,8 @@ class AsyncServerWorld(ServerWorld):
 
         async def send(event):
             t = event.get('type') if isinstance(event, dict) else None
+            if self.k.killing:
+                return
             if t == 'http.response.start':
                 if st['start']:
                     req.gw_errors.append('second http.response.start')
@@ -1107,6 +1111,8 @@ class AsyncServerWorld(ServerWorld):
 
         async def send(event):
             t = event.get('type') if isinstance(event, dict) else None
+            if self.k.killing:
+                return          # teardown of the run: not part of history
             if st['closed']:
                 # uvicorn: sends after the close are an error for the app,
                 # sends after the *client* went away are dropped
@@ -1203,6 +1209,8 @@ class AsyncServerWorld(ServerWorld):
             rec['seq_end'] = self.k.ev('api.end', id=rec['id'], name=name,
                                        exc=rec['exc'])
             rec['t_end'] = self.k.now
+            if 'sid' in rec:
+                rec['after'] = self.peek(rec['sid'])
         rec['thread'] = self.loop.spawn(run(), 'A%d:%s' % (rec['id'], name))
 
     def session_ctx(self, rec_tag, sid, mutate):
